@@ -9,10 +9,13 @@ MANIFEST = dict(
     category="other",
     text=("Bounded symbolic execution of the real unit-system code (symx): for every built-in system x every atomic unit of the "
           "default table (plus prefixed and compound units), and for generated user-defined systems whose base-unit scales are "
-          "z3 reals, z3 proves per path that in_base/convert_to_base/get_base_equivalent land on units the system declares, keep "
-          "the dimension (or its CGS/SI counterpart), keep the SI magnitude for ALL values and scales, invert, agree with each "
-          "other, are idempotent and memoise consistently; any model is replayed on plain unyt. Bounded: unit names and compound "
-          "shapes are enumerated; rounding is outside."),
+          "z3 reals (incl. base units and declared units that carry a numeric coefficient, given as quantity / string / Unit), "
+          "z3 proves per path that in_base/convert_to_base/get_base_equivalent/S[dimension] land on the system's OWN unit for the "
+          "dimension (the declared unit, else the product of powers of its base units as units, recomputed by the harness from "
+          "what it passed to UnitSystem), keep the dimension (or its CGS/SI counterpart), keep the SI magnitude for ALL values "
+          "and scales, invert, agree with each other, are idempotent and memoise consistently over every named dimension and over "
+          "orders/histories of requests inside one path; any model is replayed on plain unyt. Bounded: unit names, coefficients, "
+          "compound shapes and request orders are enumerated; rounding is outside."),
     design="DESIGN.md section 4 C10",
     technique="symbolic execution of the real Python code over z3 real terms; SMT (QF_NRA) obligations per path; counterexample replay")
 EXPLANATION = (
@@ -20,32 +23,54 @@ EXPLANATION = (
     "Unit.get_base_equivalent/get_cgs_equivalent/get_mks_equivalent, unyt_array.in_base/in_cgs/in_mks, "
     "convert_to_base/cgs/mks, _check_em_conversion, _em_conversion and the unit-string parser are executed on quantities whose "
     "value (and, for harness-defined units and user-defined systems, every unit scale/offset) is a z3 real. Per path z3 decides "
-    "pc & not(P) for: result atoms within the units the system declares; dimension kept (or the CGS/SI counterpart); SI "
-    "magnitude kept (independent oracle: product of table rows; EM factor from an independent table); conversion back gives "
-    "x; in_base == convert_to_base == to(get_base_equivalent) (== in_cgs/in_mks); first call (synthesis) == second call "
-    "(memoised units_map entry); in_base(in_base(q)) == in_base(q); by name == by object == registry default == 'code'; "
-    "raising is UnitsNotReducible and only for a system without MKS current; ill-defined systems are rejected and not registered."
+    "pc & not(P) for: result atoms within the units the system declares; the result unit IS the system's own unit for the "
+    "dimension - the declared unit, else the product of powers of the base units taken as units, coefficient included "
+    "((3*xl)**2, not 3*xl**2) - with its scale recomputed by the harness from its own record of the declarations and the "
+    "registry rows (scale obligation decided by z3 over the symbolic base scales, expression compared structurally); the reading "
+    "equals the SI magnitude divided by that independently computed scale (without looking at the returned unit); dimension "
+    "kept (or the CGS/SI counterpart); SI magnitude kept (independent oracle: product of table rows; EM factor from an "
+    "independent table); conversion back gives x; in_base == convert_to_base == to(get_base_equivalent) (== in_cgs/in_mks); "
+    "first call (synthesis) == second call (memoised units_map entry); every entry of the grown units_map is the system's own "
+    "unit; in_base(in_base(q)) == in_base(q); by name == by object == registry default == 'code'; S[name], S[dimension] and "
+    "in_base agree for every named dimension of unyt.dimensions in three request orders inside ONE path, and again at the end "
+    "of the path; sequences of conversions of different dimensions into one system in one path (each repeated at the end); "
+    "raising is UnitsNotReducible / MissingMKSCurrent and only for a system without MKS current; ill-defined systems "
+    "(incl. coefficient-carrying base units of the wrong dimension) are rejected and not registered."
 )
 BOUNDS = {
-    "quick": ("systems: 7 built-in + 4 user-defined (U1: 3 base units; U2: all optional base units + energy override; U3: no MKS current, "
+    "quick": ("systems: 7 built-in + 8 user-defined (U1: 3 base units; U2: all optional base units + energy override; U3: no MKS current, "
               "base units given as quantity with coefficient / SI-prefixed name / Unit object, velocity override; code: yt-style code "
-              "system named by the registry id, 4 overrides), all user base-unit scales symbolic. Starting units: every symbol of the "
-              "default table (value symbolic) x 7 built-in systems; 1 symbol per dimension x 4 user systems; 1 symbol per dimension "
+              "system named by the registry id, 4 overrides; Q1: quantities 3*xl, 0.8*xm, 42*xt; Q2: strings with a coefficient in all 8 "
+              "base slots; Q3: Unit objects with coefficient, quantities of SI-prefixed symbols, coefficient < 1; Q4: no MKS current, "
+              "overrides with coefficient, a compound override and a base dimension re-declared before first use), all user base-unit "
+              "scales symbolic, coefficients concrete. Starting units: every symbol of the "
+              "default table (value symbolic) x 7 built-in systems; 1 symbol per dimension x 4 U-systems; 1 symbol per dimension "
               "with its row re-defined with a symbolic scale/offset x 7 built-in systems; 14 SI-prefixed table units; compound shapes "
-              "of <= 3 factors (10 shapes, exponents +-1, +-2, +-3, 1/2) over a 16-symbol pool, 1 rotation; 22 harness-defined "
+              "of <= 3 factors (10 shapes, exponents +-1, +-2, +-3, 1/2) over a 16-symbol pool, 1 rotation; 27 harness-defined "
               "starting units (symbolic scale, symbolic offset, prefixed, compounds of 3 symbolic-scale symbols, mixed with table "
-              "symbols, table units) x all 11 systems; system named by name / object / registry default / 'code'; 18 ill-defined "
-              "constructions (table and registry, atomic/prefixed/coefficient/compound) followed by a valid one; scalar payloads"),
-    "thorough": ("as quick, plus: every table symbol x 4 user systems and every table symbol with a symbolic-scale row x 7 built-in "
-                 "systems (one case each); 2-element payloads for the table sweep; 24-symbol compound pool, 6 rotations; 32 prefixed "
-                 "units; 57 harness-defined starting units x 11 systems"),
+              "symbols, table units) x 7 built-in + 4 U-systems; 24 starting units x 4 Q-systems chosen so that every base slot "
+              "(length, mass, time, temperature, angle, current, luminous intensity, logarithmic) occurs with an exponent other than +1 "
+              "(-3 .. 3, 1/2); every named dimension of unyt.dimensions (44 with integer exponents in one path, 4 Gaussian ones with "
+              "rational exponents in short paths) x 15 systems x S[name] / in_base / S[dimension] / S[name] again, 3 request orders "
+              "for Q2 and 1 (rotating) for the others; 8 conversion histories of 2-3 dimensions (each repeated at the end of the path) "
+              "x U3, Q1-Q4, cgs, imperial; system named by name / object / registry default / 'code'; 22 ill-defined "
+              "constructions (table and registry, atomic/prefixed/coefficient as string, quantity, Unit/compound) followed by a valid one; "
+              "scalar payloads"),
+    "thorough": ("as quick, plus: every table symbol x 4 U-systems and every table symbol with a symbolic-scale row x 7 built-in "
+                 "systems (one case each); 1 symbol per dimension x 4 Q-systems; 2-element payloads for the table sweep; 24-symbol "
+                 "compound pool, 6 rotations; 32 prefixed units; 75 harness-defined starting units x all 15 systems (Q-systems without "
+                 "the atomic SI<->Gaussian units); named-dimension sweep in all 3 orders x 15 systems; histories x all 15 systems"),
 }
 OUTSIDE = ("IEEE rounding/overflow (A1) - compounds whose factorisation into a system's base units leaves the double range in a partial "
            "product (t_pl**8 ...) are skipped; integer/complex payloads (C17); the numeric correctness of table rows themselves (C02: the "
            "oracle takes a symbol's scale and dimension from its registry row); compound units with more than 3 factors; quantities "
-           "whose registry lacks the system's base units; re-registering a system under an existing name; concurrent use")
+           "whose registry lacks the system's base units; re-registering a system under an existing name; re-declaring a unit of a "
+           "system (S[dim] = ...) AFTER derived dimensions were memoised; symbolic coefficients of base units (sympy expressions "
+           "cannot hold z3 terms: coefficients are enumerated, the scales they multiply are symbolic); atomic SI<->Gaussian units "
+           "against the coefficient-carrying Q-systems (that route ignores the system's units altogether: known finding, exercised "
+           "on U1-U3/code and the built-in systems); base units with an offset (degC as temperature unit); concurrent use")
 
-NAMES = ["xl", "xm", "xt", "xtemp", "xang", "xcur", "xen", "xv", "xa", "xb", "xc"]
+NAMES = ["xl", "xm", "xt", "xtemp", "xang", "xcur", "xen", "xv", "xa", "xb", "xc", "xlum", "xlog", "xpr"]
 CODE_NAMES = ["code_length", "code_mass", "code_time", "code_temperature", "code_velocity", "code_magnetic", "code_pressure", "code_density"]
 
 BUILTIN = ["cgs", "mks", "imperial", "galactic", "solar", "geometrized", "planck"]
@@ -123,6 +148,63 @@ def same_unit(u, v):
     return bool(r.is_Number) and abs(float(r) - 1.0) <= 1e-9
 
 
+def dim_exponents(dims):
+    """{base dimension symbol: Fraction exponent} of a dimension expression (the harness' own factorisation)"""
+    import sympy
+    out = {}
+    for base, exp in sympy.sympify(dims).expand().as_powers_dict().items():
+        if base.is_Number:
+            continue
+        out[base] = Fraction(str(exp)).limit_denominator(1000)
+    return out
+
+
+def system_unit(decl, dims, lut, base_keys):
+    """The unit a system with the declarations `decl` (dimension -> sympy expression: its base units and the units it
+    declares for derived dimensions, as the harness knows them - NOT the system's grown units_map) has for `dims`:
+    the declared unit if the whole dimension is declared, else the product of powers of the units declared for the base
+    dimensions. -> (expression, scale, offset) with scale/offset recomputed from the registry rows, or None if a base
+    dimension has no unit (no MKS current)."""
+    import sympy
+    dims = sympy.sympify(dims)
+    fs = dims.free_symbols
+    for k, v in decl.items():
+        if v is not None and (k == dims or (k.free_symbols == fs and same_dims(k, dims))):
+            s, _ = oracle_unit(v, lut, base_keys)
+            o = 0.0
+            if v.is_Symbol:
+                o = atomic_src(str(v), lut, base_keys)[1]
+            return v, s, o
+    expr = 1
+    scale = 1.0
+    for base, e in dim_exponents(dims).items():
+        bu = decl.get(base)
+        if bu is None:
+            return None
+        s, _ = oracle_unit(bu, lut, base_keys)
+        scale = scale * (s ** e if e != 1 else s)
+        expr = expr * bu ** (int(e) if e.denominator == 1 else __import__("sympy").Rational(e.numerator, e.denominator))
+    return expr, scale, 0.0
+
+
+def same_expr(a, b):
+    """two unit expressions are the same up to the representation of a numeric coefficient"""
+    r = a / b
+    return bool(r.is_number) and abs(float(r) - 1.0) <= 1e-9
+
+
+def foreign_entries(S, decl, lut, base_keys):
+    """entries of the (grown) units_map that are not the declared unit / the product of powers of the base units"""
+    out = []
+    for k, v in S.units_map.items():
+        if v is None:
+            continue
+        w = system_unit(decl, k, lut, base_keys)
+        if w is not None and not same_expr(v, w[0]):
+            out.append(f"{k}: {v} (want {w[0]})")
+    return out
+
+
 def em_counterpart(mods, dims):
     """(counterpart dimension, K) or None"""
     D = mods["unyt"].dimensions
@@ -171,10 +253,13 @@ def is_em_atom(ustr, lut):
     return False
 
 
-def battery(ctx, tag, q, xs, S, sysargs, reg, base_keys, src):
+def battery(ctx, tag, q, xs, S, sysargs, reg, base_keys, src, decl=None):
     """all C10 obligations for one quantity q (payload elements xs) and one system S.
     sysargs: list of (label, argument) ways of naming S to in_base; the first one is the reference.
-    src = (scale, offset, dims) of q's unit from the harness' own knowledge."""
+    src = (scale, offset, dims) of q's unit from the harness' own knowledge.
+    decl = the system's declarations (dimension -> expression: base units and overrides) as the harness knows them from
+    what it passed to UnitSystem(...) / __setitem__; default: the system's units_map on entry (built-in systems: the map
+    as declared in unit_systems.py, restored by reset_builtin)."""
     mods = ctx.mods
     unyt = mods["unyt"]
     D = unyt.dimensions
@@ -182,6 +267,8 @@ def battery(ctx, tag, q, xs, S, sysargs, reg, base_keys, src):
     s_q, o_q, d_q = src
     lut = reg.lut
     declared = declared_atoms(S)
+    if decl is None:
+        decl = dict(S.units_map)
     has_current = S.units_map[D.current_mks] is not None
     u_before = q.units
     ustr_before = str(q.units)
@@ -218,6 +305,21 @@ def battery(ctx, tag, q, xs, S, sysargs, reg, base_keys, src):
         ctx.require(f"{tag}|dimension kept", okdim, got=str(d_r), want=str(d_q))
         K = em[1] if okdim else None
     ctx.require(f"{tag}|result unit scale from rows", close(r1.units.base_value, s_r))
+    # (2b) the result unit is the system's OWN unit for that dimension: the declared one, or the product of powers of the
+    # system's base units *as units* (coefficient included: (3*xl)**2, not 3*xl**2), recomputed by the harness
+    want = system_unit(decl, d_r, lut, base_keys) if K is not None else None
+    if want is not None:
+        w_expr, w_s, w_o = want
+        ctx.require(f"{tag}|stays/unit is the system's own unit (scale)", close(r1.units.base_value, w_s),
+                    result=str(r1.units), want=str(w_expr))
+        ctx.require(f"{tag}|stays/unit is the system's own unit (expression)", same_expr(r1.units.expr, w_expr),
+                    result=str(r1.units), want=str(w_expr))
+        if K == 1.0:
+            # the reading itself, without looking at the unit that was returned
+            exw = 1e-6 * (vabs(s_q * o_q) + vabs(w_s * w_o))
+            ctx.require(f"{tag}|value in the system's own units",
+                        And(*[close(si_of(v, w_s, w_o), si_of(x, s_q, o_q), extra=exw) for v, x in zip(v1, xs)]),
+                        result=str(r1.units), want=str(w_expr))
     # (3) same physical quantity
     if K is not None:
         ex = 1e-6 * (vabs(s_q * o_q) * K + vabs(s_r * o_r))
@@ -261,6 +363,8 @@ def battery(ctx, tag, q, xs, S, sysargs, reg, base_keys, src):
         if v is not None and not same_dims(oracle_unit(v, lut, base_keys)[1], k):
             bad.append(str(k))
     ctx.require(f"{tag}|units_map entries match their dimension", not bad, bad=bad)
+    foreign = foreign_entries(S, decl, lut, base_keys)
+    ctx.require(f"{tag}|units_map entries are the system's own units", not foreign, bad=foreign[:4])
     # (9) input untouched
     ctx.require(f"{tag}|input untouched", And(all_close(payload(q), xs, tol=0), q.units is u_before, str(q.units) == ustr_before))
     return r1
@@ -438,9 +542,13 @@ def user_registry(ctx, variant):
         for n, dim in zip(CODE_NAMES, ["length", "mass", "time", "temperature", "velocity", "magnetic_field_cgs", "pressure", "density"]):
             row(n, dim)
         return reg
-    row("xl", "length")
+    row("xl", "length", prefixable=variant in QVARIANTS)
     row("xm", "mass", prefixable=True)
     row("xt", "time")
+    if variant in QVARIANTS:
+        for n, dim in (("xtemp", "temperature"), ("xang", "angle"), ("xcur", "current_mks"), ("xlum", "luminous_intensity"),
+                       ("xlog", "logarithmic"), ("xv", "velocity"), ("xen", "energy"), ("xpr", "pressure")):
+            row(n, dim)
     if variant == "U2":
         row("xtemp", "temperature")
         row("xang", "angle")
@@ -451,10 +559,89 @@ def user_registry(ctx, variant):
     return reg
 
 
-def user_system(ctx, variant, reg):
-    """-> (S, name, sysargs): the system is defined after all rows exist (the 'code' name is the registry's id)"""
+def _psym(n):
+    import sympy
+    return sympy.Symbol(n, positive=True)
+
+
+def _decl(mods, **kw):
+    """the harness' own record of what a system declares: dimension -> expression (the unyt defaults for the optional
+    base units unless given; None = no unit)"""
+    D = mods["unyt"].dimensions
+    base = dict(temperature=_psym("K"), angle=_psym("rad"), current_mks=_psym("A"), luminous_intensity=_psym("cd"), logarithmic=_psym("Np"))
+    base.update(kw)
+    return {getattr(D, k): v for k, v in base.items()}
+
+
+# user-defined systems whose base units carry a numeric coefficient. slot -> (form, coefficient, symbol):
+#   "q" unyt_quantity(c, sym)   "s" the string "c*sym"   "u" Unit("c*sym")   "n" the bare name   "U" Unit(sym)
+# "over": units declared after construction through __setitem__ (dimension name -> (coefficient, {symbol: exponent}));
+# a base dimension may be re-declared there (before any derived dimension was requested)
+QVARIANTS = {
+    # docs/usage.rst 'quasmological': base units given as quantities
+    "Q1": dict(base=dict(length=("q", 3.0, "xl"), mass=("q", 0.8, "xm"), time=("q", 42.0, "xt")), over={}),
+    # strings with a coefficient in every slot
+    "Q2": dict(base=dict(length=("s", 3, "xl"), mass=("s", 0.8, "xm"), time=("s", 42, "xt"), temperature=("s", 1.8, "xtemp"),
+                         angle=("s", 0.5, "xang"), current_mks=("s", 10, "xcur"), luminous_intensity=("s", 2, "xlum"),
+                         logarithmic=("s", 4, "xlog")), over={}),
+    # Unit objects with a coefficient, quantities of SI-prefixed symbols, a fractional and an integer coefficient
+    "Q3": dict(base=dict(length=("u", 0.25, "kxl"), mass=("q", 5.0, "kxm"), time=("u", 7, "xt"), temperature=("q", 1.8, "xtemp"),
+                         angle=("U", 1, "xang"), current_mks=("q", 0.1, "xcur"), luminous_intensity=("q", 2.0, "xlum")), over={}),
+    # coefficients on declared (override) units, a compound override, and a base dimension re-declared before first use
+    "Q4": dict(base=dict(length=("n", 1, "xl"), mass=("q", 0.8, "xm"), time=("s", 42, "xt"), current_mks=None),
+               over=dict(velocity=(3, {"xv": 1}), pressure=(0.5, {"xm": 1, "xl": -1, "xt": -2}), length=(5, {"kxl": 1}),
+                         specific_energy=(2, {"xen": 1, "xm": -1}))),
+}
+QSLOT_KW = dict(length="length_unit", mass="mass_unit", time="time_unit", temperature="temperature_unit", angle="angle_unit",
+                current_mks="current_mks_unit", luminous_intensity="luminous_intensity_unit", logarithmic="logarithmic_unit")
+
+
+def _q_arg(unyt, reg, form, c, sym):
+    if form == "q":
+        return unyt.unyt_quantity(c, sym, registry=reg)
+    if form == "s":
+        return f"{c}*{sym}"
+    if form == "u":
+        return unyt.Unit(f"{c}*{sym}", registry=reg)
+    if form == "U":
+        return unyt.Unit(sym, registry=reg)
+    return sym
+
+
+def q_system(ctx, variant, reg):
+    import sympy
     unyt = ctx.mods["unyt"]
     US = ctx.mods["US"]
+    spec = QVARIANTS[variant]
+    name = "xsys_" + variant
+    kw = {}
+    dk = {}
+    for slot, v in spec["base"].items():
+        if v is None:
+            kw[QSLOT_KW[slot]] = None
+            dk[slot] = None
+            continue
+        form, c, sym = v
+        kw[QSLOT_KW[slot]] = _q_arg(unyt, reg, form, c, sym)
+        dk[slot] = (sympy.Float(c) if form in "qsu" else 1) * _psym(sym)
+    S = US.UnitSystem(name, registry=reg, **kw)
+    for dn, (c, powers) in spec["over"].items():
+        txt = "*".join(f"{n}**({e})" for n, e in powers.items())
+        S[dn] = f"{c}*{txt}"
+        e = sympy.Float(c)
+        for n, ex in powers.items():
+            e = e * _psym(n) ** ex
+        dk[dn] = e
+    return S, name, [("name", name), ("object", S)], _decl(ctx.mods, **dk)
+
+
+def user_system(ctx, variant, reg):
+    """-> (S, name, sysargs, decl): the system is defined after all rows exist (the 'code' name is the registry's id);
+    decl is the harness' own record of the declarations (see battery)"""
+    unyt = ctx.mods["unyt"]
+    US = ctx.mods["US"]
+    if variant in QVARIANTS:
+        return q_system(ctx, variant, reg)
     if variant == "code":
         # as yt's create_code_unit_system
         name = reg.unit_system_id
@@ -463,20 +650,28 @@ def user_system(ctx, variant, reg):
         S["magnetic_field_cgs"] = "code_magnetic"
         S["pressure"] = "code_pressure"
         S["density"] = "code_density"
-        return S, name, [("name", name), ("object", S), ("code", "code")]
+        decl = _decl(ctx.mods, length=_psym("code_length"), mass=_psym("code_mass"), time=_psym("code_time"),
+                     temperature=_psym("code_temperature"), current_mks=None, velocity=_psym("code_velocity"),
+                     magnetic_field_cgs=_psym("code_magnetic"), pressure=_psym("code_pressure"), density=_psym("code_density"))
+        return S, name, [("name", name), ("object", S), ("code", "code")], decl
     name = "xsys_" + variant
     if variant == "U1":
         S = US.UnitSystem(name, "xl", "xm", "xt", registry=reg)
+        decl = _decl(ctx.mods, length=_psym("xl"), mass=_psym("xm"), time=_psym("xt"))
     elif variant == "U2":
         S = US.UnitSystem(name, "xl", "xm", "xt", temperature_unit="xtemp", angle_unit="xang", current_mks_unit="xcur", registry=reg)
         S["energy"] = "xen"
+        decl = _decl(ctx.mods, length=_psym("xl"), mass=_psym("xm"), time=_psym("xt"), temperature=_psym("xtemp"), angle=_psym("xang"),
+                     current_mks=_psym("xcur"), energy=_psym("xen"))
     elif variant == "U3":
         S = US.UnitSystem(name, unyt.unyt_quantity(2.0, "xl", registry=reg), "kxm", unyt.Unit("xt", registry=reg),
                           temperature_unit="R", current_mks_unit=None, registry=reg)
         S["velocity"] = unyt.Unit("xv", registry=reg)
+        decl = _decl(ctx.mods, length=2.0 * _psym("xl"), mass=_psym("kxm"), time=_psym("xt"), temperature=_psym("R"), current_mks=None,
+                     velocity=_psym("xv"))
     else:
         raise KeyError(variant)
-    return S, name, [("name", name), ("object", S)]
+    return S, name, [("name", name), ("object", S)], decl
 
 
 def _sym_atom(dim, prefix="", offset=False):
@@ -527,9 +722,19 @@ START = {
     "t:g": _table("g"), "t:yr": _table("yr"), "t:degF": _table("degF"), "t:deg": _table("deg"), "t:A": _table("A"), "t:statC": _table("statC"),
     "t:V": _table("V"), "t:W": _table("W"), "t:J/K": _table("J/K"), "t:T": _table("T"), "t:lat": _table("lat"), "t:statC*cm": _table("statC*cm"),
     "t:C/m**2": _table("C/m**2"), "t:kxm": _table("kxm"), "t:dimensionless": _table("dimensionless"),
+    # one exponent other than +1 on every base slot of a system (length, mass, time, temperature, angle, current, luminous
+    # intensity, logarithmic): what a coefficient-carrying base unit needs to show (3*xl)**2 != 3*xl**2
+    "t:Hz": _table("Hz"), "t:cm**2": _table("cm**2"), "t:kg**-1": _table("kg**-1"), "t:g/cm**3": _table("g/cm**3"), "t:N": _table("N"),
+    "t:Pa": _table("Pa"), "t:km/s": _table("km/s"), "t:rad/s": _table("rad/s"), "t:sr": _table("sr"), "t:A*s": _table("A*s"),
+    "t:kg/(A*s**2)": _table("kg/(A*s**2)"), "t:lx": _table("lx"), "t:lm": _table("lm"), "t:sqrt(cm)": _table("sqrt(cm)"),
+    "t:m**3/K**2": _table("m**3/K**2"), "t:Np**2/s": _table("Np**2/s"), "t:cd**-1": _table("cd**-1"), "t:A**2*s": _table("A**2*s"),
 }
+# starting units for the systems with coefficient-carrying base units (Q variants)
+QSTART = ["L", "kL", "Vel", "E", "Taff", "one", "c:a/c", "c:a**2*b/c**2", "c:sqrt(a)", "c:b/(a*c**2)", "m:erg/a**3",
+          "t:Hz", "t:cm**2", "t:kg**-1", "t:g/cm**3", "t:J/K", "t:rad/s", "t:sr", "t:A*s", "t:kg/(A*s**2)", "t:lx", "t:Np**2/s",
+          "t:mile/hr", "t:degC"]
 QUICK_START = ["L", "kL", "M", "Taff", "Gaff", "I", "E", "Vel", "Qm", "Bc", "one", "c:a/c", "c:a**2*b/c**2", "c:sqrt(a)", "c:b/(a*c**2)",
-               "m:erg/a**3", "t:km", "t:erg", "t:degC", "t:G", "t:C", "t:mile/hr"]
+               "m:erg/a**3", "t:km", "t:erg", "t:degC", "t:G", "t:C", "t:mile/hr", "t:Hz", "t:cm**2", "t:g/cm**3", "t:J/K", "t:rad/s"]
 
 
 def make_user_case(variant, start, shape=()):
@@ -543,7 +748,7 @@ def make_user_case(variant, start, shape=()):
         try:
             reg = user_registry(ctx, variant)
             ustr, src = build(ctx, reg)
-            S, name, sysargs = user_system(ctx, variant, reg)
+            S, name, sysargs, decl = user_system(ctx, variant, reg)
             keys = set(reg.lut)
             x = ctx.reals("x", shape)
             q = ctx.quantity(x, ustr, reg)
@@ -555,7 +760,7 @@ def make_user_case(variant, start, shape=()):
                     src = (s, 0.0, d)
             # usable immediately: registered under its name, and the registered object is the one just built
             ctx.require("registered under its name", US.unit_system_registry.get(name) is S and str(S) == name)
-            battery(ctx, tag_of(ustr, reg.lut), q, elements(x), S, sysargs, reg, keys, src)
+            battery(ctx, tag_of(ustr, reg.lut), q, elements(x), S, sysargs, reg, keys, src, decl=decl)
         finally:
             if name is not None:
                 US.unit_system_registry.pop(name, None)
@@ -575,11 +780,11 @@ def make_user_table_case(variant, label, names):
         try:
             for i, n in enumerate(names):
                 reg = user_registry(ctx, variant)
-                S, name, sysargs = user_system(ctx, variant, reg)
+                S, name, sysargs, decl = user_system(ctx, variant, reg)
                 keys = set(reg.lut)
                 x = ctx.reals(f"x_{i}", ())
                 q = ctx.quantity(x, n, reg)
-                battery(ctx, tag_of(n, reg.lut), q, elements(x), S, sysargs, reg, keys, atomic_src(n, reg.lut, keys))
+                battery(ctx, tag_of(n, reg.lut), q, elements(x), S, sysargs, reg, keys, atomic_src(n, reg.lut, keys), decl=decl)
                 US.unit_system_registry.pop(name, None)
         finally:
             if name is not None:
@@ -612,6 +817,188 @@ def make_builtin_start_case(system, start):
     return Case(f"C10/builtinX/{system}/{start}", h, bounds="symbolic: value, scales/offset of the starting unit's symbols", weight=5)
 
 
+# ----------------------------------------------------------------------------- every named dimension, histories
+
+SWEEP_BASE = {"mass": "g", "length": "km", "time": "hr", "temperature": "R", "angle": "degree", "current_mks": "mA",
+              "luminous_intensity": "cd", "logarithmic": "Np"}
+
+
+def named_dimensions(mods):
+    """every dimension unyt.dimensions has a name for (one name per distinct dimension)"""
+    import sympy
+    D = mods["unyt"].dimensions
+    out, seen = [], []
+    for n in sorted(dir(D)):
+        v = getattr(D, n)
+        if n.startswith("_") or len(n) < 4 or not isinstance(v, sympy.Basic) or not v.free_symbols:
+            continue
+        if any(same_dims(v, w) for w in seen):
+            continue
+        seen.append(v)
+        out.append(n)
+    return out
+
+
+def sweep_unit(mods, dims):
+    """a compound of table units (none of scale 1) with the dimension `dims`"""
+    D = mods["unyt"].dimensions
+    by = {getattr(D, k): v for k, v in SWEEP_BASE.items()}
+    parts = []
+    for base, e in dim_exponents(dims).items():
+        parts.append(by[base] if e == 1 else f"{by[base]}**({e})")
+    return "*".join(parts)
+
+
+def _open_system(ctx, kind, system):
+    """-> (S, arg, reg, keys, decl, name to pop)"""
+    mods = ctx.mods
+    if kind == "builtin":
+        S = mods["US"].unit_system_registry[system]
+        return S, system, mods["UO"].default_unit_registry, default_keys(), dict(S.units_map), None
+    reg = user_registry(ctx, system)
+    S, name, sysargs, decl = user_system(ctx, system, reg)
+    return S, S, reg, set(reg.lut), decl, name
+
+
+def make_dimension_case(kind, system, order, names):
+    """ONE path: every named dimension is requested from the system three ways - S[name] (synthesis + memoisation),
+    in_base of a quantity of that dimension, S[dimension object] (memoised) - in the given order, alternating which of
+    the first two comes first; then everything is requested again. The map only grows inside the path."""
+    def h(ctx):
+        mods = ctx.mods
+        US = mods["US"]
+        unyt = mods["unyt"]
+        D = unyt.dimensions
+        NR = unyt.exceptions.UnitsNotReducible
+        MC = unyt.exceptions.MissingMKSCurrent
+        reset_builtin(mods)
+        popname = None
+        try:
+            S, arg, reg, keys, decl, popname = _open_system(ctx, kind, system)
+            lut = reg.lut
+
+            def ask(dn, key, how):
+                d = getattr(D, dn)
+                want = system_unit(decl, d, lut, keys)
+                r = call(S.__getitem__, key)
+                if want is None:
+                    ctx.require(f"{dn}|{how}: raises MissingMKSCurrent (no MKS current)", r[0] == "raise" and isinstance(r[1], MC))
+                    return
+                ctx.require(f"{dn}|{how}: returns a unit", r[0] == "ok", err=repr(r[1])[:120])
+                if r[0] != "ok":
+                    return
+                u = r[1]
+                ctx.require(f"{dn}|{how}: has the dimension asked for", same_dims(u.dimensions, d))
+                ctx.require(f"{dn}|{how}: is the system's own unit (scale)", close(u.base_value, want[1]), got=str(u), want=str(want[0]))
+                ctx.require(f"{dn}|{how}: is the system's own unit (expression)", same_expr(u.expr, want[0]), got=str(u), want=str(want[0]))
+
+            def convert(dn):
+                d = getattr(D, dn)
+                want = system_unit(decl, d, lut, keys)
+                ustr = sweep_unit(mods, d)
+                x = ctx.real(f"x_{dn}")
+                q = ctx.quantity(x, ustr, reg if kind != "builtin" else None)
+                s_q, d_q = oracle_unit(q.units.expr, lut, keys)
+                if want is None and q.units.is_atomic:
+                    return  # a bare (prefixed) ampere in a system without MKS current takes the SI <-> Gaussian route: see battery
+                r = call(q.in_base, arg)
+                if want is None:
+                    ctx.require(f"{dn}|in_base: raises UnitsNotReducible (no MKS current)", r[0] == "raise" and isinstance(r[1], NR))
+                    return
+                ctx.require(f"{dn}|in_base: returns", r[0] == "ok", err=repr(r[1])[:120])
+                if r[0] != "ok":
+                    return
+                v = payload(r[1])[0]
+                ctx.observe(f"{dn}|in_base", [v])
+                ctx.require(f"{dn}|in_base: value in the system's own units", close(v * want[1], x * s_q), got=str(r[1].units), want=str(want[0]))
+                ctx.require(f"{dn}|in_base: unit is the system's own unit (scale)", close(r[1].units.base_value, want[1]),
+                            got=str(r[1].units), want=str(want[0]))
+                ctx.require(f"{dn}|in_base: unit is the system's own unit (expression)", same_expr(r[1].units.expr, want[0]),
+                            got=str(r[1].units), want=str(want[0]))
+                e = call(q.units.get_base_equivalent, arg)
+                ctx.require(f"{dn}|get_base_equivalent: the same unit", e[0] == "ok" and same_unit(e[1], r[1].units))
+
+            for i, dn in enumerate(names):
+                if i % 2 == 0:
+                    ask(dn, dn, "S[name] first")
+                    convert(dn)
+                else:
+                    convert(dn)
+                    ask(dn, dn, "S[name] after in_base")
+                ask(dn, getattr(D, dn), "S[dimension] memoised")
+            for dn in names:
+                ask(dn, dn, "S[name] at the end")
+            foreign = foreign_entries(S, decl, lut, keys)
+            ctx.require("units_map entries are the system's own units", not foreign, bad=foreign[:4])
+        finally:
+            if popname is not None:
+                US.unit_system_registry.pop(popname, None)
+            reset_builtin(mods)
+    return Case(f"C10/dimensions/{system}/{order}", h, bounds="symbolic: values, base-unit scales of user-defined systems; "
+                "discrete: every named dimension, order of the requests", budget_s=600, max_paths=3000, weight=4 * len(names))
+
+
+# sequences of conversions into ONE system inside one path (the units_map grows from step to step)
+HISTORIES = [("km/s", "cm**2", "erg"), ("erg", "km/s", "erg"), ("Hz", "hr", "Hz"), ("g/cm**3", "kg**-1", "N"), ("J/K", "degC", "rad/s"),
+             ("Pa", "km/s", "g/cm**3"), ("cm**2", "cm"), ("cm**3", "cm**2", "cm**-1")]
+
+
+def light_step(ctx, tag, q, x, S, arg, reg, keys, src, decl):
+    """the core obligations of one conversion (no twins): own unit, value, conversion back"""
+    NR = ctx.mods["unyt"].exceptions.UnitsNotReducible
+    s_q, o_q, d_q = src
+    want = system_unit(decl, d_q, reg.lut, keys)
+    r = call(q.in_base, arg)
+    if want is None:
+        ctx.require(f"{tag}|raises UnitsNotReducible (no MKS current)", r[0] == "raise" and isinstance(r[1], NR))
+        return
+    ctx.require(f"{tag}|returns", r[0] == "ok", err=repr(r[1])[:120])
+    if r[0] != "ok":
+        return
+    w_expr, w_s, w_o = want
+    v = payload(r[1])[0]
+    ctx.observe(f"{tag}|in_base", [v])
+    info = dict(got=str(r[1].units), want=str(w_expr))
+    ex = 1e-6 * (vabs(s_q * o_q) + vabs(w_s * w_o))
+    ctx.require(f"{tag}|value in the system's own units", close(si_of(v, w_s, w_o), si_of(x, s_q, o_q), extra=ex), **info)
+    ctx.require(f"{tag}|unit is the system's own unit (scale)", close(r[1].units.base_value, w_s), **info)
+    ctx.require(f"{tag}|unit is the system's own unit (expression)", same_expr(r[1].units.expr, w_expr), **info)
+    ctx.require(f"{tag}|stays inside the system", atoms_of(r[1].units.expr) <= declared_atoms(S), **info)
+    foreign = foreign_entries(S, decl, reg.lut, keys)
+    ctx.require(f"{tag}|units_map entries are the system's own units", not foreign, bad=foreign[:4])
+
+
+def make_history_case(kind, system, idx, seq):
+    """conversions of quantities of different dimensions into ONE system inside one path; at the end every quantity is
+    converted again (now from the memoised map, after the other dimensions were added)"""
+    def h(ctx):
+        mods = ctx.mods
+        US = mods["US"]
+        reset_builtin(mods)
+        popname = None
+        try:
+            S, arg, reg, keys, decl, popname = _open_system(ctx, kind, system)
+            done = []
+            for i, ustr in enumerate(seq):
+                x = ctx.real(f"x_{i}")
+                q = ctx.quantity(x, ustr, reg if kind != "builtin" else None)
+                if q.units.is_atomic:
+                    src = atomic_src(str(q.units.expr), reg.lut, keys)
+                else:
+                    sc, d = oracle_unit(q.units.expr, reg.lut, keys)
+                    src = (sc, 0.0, d)
+                light_step(ctx, f"step{i}:{ustr}", q, x, S, arg if i % 2 == 0 else S.name, reg, keys, src, decl)
+                done.append((i, ustr, q, x, src))
+            for i, ustr, q, x, src in done:
+                light_step(ctx, f"again{i}:{ustr}", q, x, S, arg, reg, keys, src, decl)
+        finally:
+            if popname is not None:
+                US.unit_system_registry.pop(popname, None)
+            reset_builtin(mods)
+    return Case(f"C10/history/{system}/h{idx}", h, bounds="symbolic: values, base-unit scales; discrete: the sequence of conversions",
+                budget_s=600, max_paths=3000, weight=10)
+
+
 # ----------------------------------------------------------------------------- ill-defined systems
 
 # (label, registry?, kwargs-builder): every one has at least one base unit of the wrong dimension
@@ -633,6 +1020,11 @@ def _bad_specs():
         ("reg/mass=kxl", True, dict(length_unit="xl", mass_unit="kxl", time_unit="xt"), True),
         ("reg/temperature=xt", True, dict(length_unit="xl", mass_unit="xm", time_unit="xt", temperature_unit="xt"), True),
         ("reg/energy unit as mass", True, dict(length_unit="xl", mass_unit="xen", time_unit="xt"), True),
+        # base units given with a coefficient (quantity / Unit object / string) of the wrong dimension
+        ("reg/length=quantity 2*xm", True, dict(length_unit=("q", 2.0, "xm"), mass_unit="xm", time_unit="xt"), True),
+        ("reg/mass=Unit 3*xt", True, dict(length_unit="xl", mass_unit=("u", 3, "xt"), time_unit="xt"), True),
+        ("reg/time=quantity 0.5*kxl", True, dict(length_unit="xl", mass_unit="xm", time_unit=("q", 0.5, "kxl")), True),
+        ("reg/temperature=string 1.8*xen", True, dict(length_unit="xl", mass_unit="xm", time_unit="xt", temperature_unit="1.8*xen"), True),
         # compound base unit of the wrong dimension: must not be accepted (which exception is not prescribed)
         ("reg/length=xl/xt", True, dict(length_unit="xl/xt", mass_unit="xm", time_unit="xt"), False),
         ("tab/length=cm**2", False, dict(length_unit="cm**2", mass_unit="g", time_unit="s"), False),
@@ -654,7 +1046,8 @@ def make_bad_case(label, with_reg, kw, strict):
                 reg = ctx.registry([])
                 for n, d, pf in (("xl", D.length, True), ("xm", D.mass, True), ("xt", D.time, False), ("xen", D.energy, False)):
                     ctx.add_row(reg, n, d, ctx.real(n + "_s", pos=True), 0.0, prefixable=pf)
-            r = call(US.UnitSystem, name, registry=reg, **kw)
+            kw2 = {k: (_q_arg(mods["unyt"], reg, *v) if isinstance(v, tuple) else v) for k, v in kw.items()}
+            r = call(US.UnitSystem, name, registry=reg, **kw2)
             ctx.require("ill-defined system rejected", r[0] == "raise", got=repr(r[1])[:100])
             if strict:
                 ctx.require("rejected with IllDefinedUnitSystem", r[0] == "raise" and isinstance(r[1], Ill), exc=type(r[1]).__name__)
@@ -712,20 +1105,57 @@ def cases(tier, mods):
         for st in (QUICK_START if quick else list(START)):
             if not st.startswith("t:"):
                 out.append(make_builtin_start_case(system, st))
-    for variant in ("U1", "U2", "U3", "code"):
-        for st in (QUICK_START if quick else list(START)):
+    for variant in ("U1", "U2", "U3", "code") + tuple(QVARIANTS):
+        isq = variant in QVARIANTS
+        for st in ((QSTART if isq else QUICK_START) if quick else list(START)):
             if variant == "code" and st == "t:kxm":
                 continue
+            if isq and st.startswith("t:") and st[2:] in EM_ATOMS:
+                continue  # the SI <-> Gaussian route ignores the system's units altogether (known finding, see U1-U3/code)
             out.append(make_user_case(variant, st))
-            if not quick and st in QUICK_START:
+            if not quick and ((not isq and st in QUICK_START) or (variant == "Q2" and st in QSTART)):
                 out.append(make_user_case(variant, st, shape=(2,)))
+        if isq and quick:
+            continue
         # every atomic unit of the default table against the user-defined systems
         for lab in sorted(by):
-            if quick:
-                out.append(make_user_table_case(variant, lab, by[lab][:1]))
+            if quick or isq:
+                names = [n for n in by[lab] if not (isq and n in EM_ATOMS)][:1]
+                if names:
+                    out.append(make_user_table_case(variant, lab, names))
             else:
                 for n in by[lab]:
                     out.append(make_user_table_case(variant, f"{lab}/{n}", [n]))
+    # every named dimension x every system, three request routes, orders of the requests (one path each)
+    # (dimensions with rational exponents - the Gaussian EM ones - put a root witness per scale into the path condition:
+    # they go into short paths of their own)
+    D = mods["unyt"].dimensions
+    dn = named_dimensions(mods)
+    dint = [n for n in dn if all(e.denominator == 1 for e in dim_exponents(getattr(D, n)).values())]
+    drat = [n for n in dn if n not in dint]
+
+    def orders(names, which):
+        o = [("forward", names), ("reverse", names[::-1]), ("rotated", names[len(names) // 3:] + names[:len(names) // 3])]
+        return [o[i] for i in which]
+
+    def dimension_cases(kind, system, which):
+        for lab, names in orders(dint, which):
+            out.append(make_dimension_case(kind, system, "integer-" + lab, names))
+        for i in range(0, len(drat), 3):
+            for lab, names in orders(drat[i:i + 3], which[:2]):
+                out.append(make_dimension_case(kind, system, f"rational{i // 3}-" + lab, names))
+
+    # quick: all three orders for the system with a coefficient in every slot, one (rotating) order for the others
+    allsys = [("builtin", n) for n in BUILTIN] + [("user", v) for v in ("U1", "U2", "U3", "code") + tuple(QVARIANTS)]
+    for i, (kind, system) in enumerate(allsys):
+        dimension_cases(kind, system, [0, 1, 2] if (not quick or system == "Q2") else [i % 3])
+    # histories of conversions into one system
+    for variant in ("U3",) + tuple(QVARIANTS) + (() if quick else ("U1", "U2", "code")):
+        for i, seq in enumerate(HISTORIES):
+            out.append(make_history_case("user", variant, i, seq))
+    for system in (["cgs", "imperial"] if quick else BUILTIN):
+        for i, seq in enumerate(HISTORIES):
+            out.append(make_history_case("builtin", system, i, seq))
     for label, with_reg, kw, strict in _bad_specs():
         out.append(make_bad_case(label, with_reg, kw, strict))
     return out
@@ -739,4 +1169,4 @@ def coverage_extra(results, tier):
         f["cases"] += 1
         f["paths"] += r["paths"]
         f["obligations"] += r["stats"]["obligations"]
-    return dict(families=fam, systems=BUILTIN + ["user:U1", "user:U2", "user:U3", "user:code"])
+    return dict(families=fam, systems=BUILTIN + ["user:U1", "user:U2", "user:U3", "user:code"] + ["user:" + v for v in QVARIANTS])
